@@ -9,6 +9,8 @@ LEVEL = "other"
 DEDICATED = [
     # lint attributes of the user and generated code (hunt 3): an expectation fulfilled by the item itself, forbid of a lint the generator
     # used to allow, a diverging default value, allow(warnings) on a field of a deprecated type, lint attributes on a user-written operator impl
+    ("expect_deprecated_on_field", "#[deprecated]\n#[derive(Clone, Debug, PartialEq, Default)]\npub struct Old(pub u8);\n#[derive_ex::derive_ex(Clone, Debug, PartialEq, Default)]\npub struct X { #[expect(deprecated)] pub a: Old, pub b: u8 }\n#[derive(derive_ex::Ex)]\n#[derive_ex(Clone, PartialEq, Debug)]\npub enum E { A(#[expect(deprecated)] Old), B }"),
+    ("forbid_deprecated_without_deprecated", "#[forbid(deprecated)]\n#[derive_ex::derive_ex(Clone, Debug, PartialEq, Default, Add, Not)]\npub struct X(pub u8);\n#[warn(deprecated)]\n#[deny(warnings)]\n#[derive(derive_ex::Ex)]\n#[derive_ex(Clone, PartialEq, Hash)]\npub enum E { A, B(u8) }"),
     ("expect_on_item", "#[expect(non_camel_case_types)]\n#[derive_ex::derive_ex(Clone, Debug, Default, PartialEq, Eq, PartialOrd, Ord, Hash)]\npub struct my_type { pub a: u8 }\n#[derive(derive_ex::Ex)]\n#[derive_ex(Clone, PartialEq)]\n#[expect(non_camel_case_types)]\npub enum my_enum { A, B(u8) }"),
     ("forbid_unused_parens", "#[forbid(unused_parens)]\n#[derive_ex::derive_ex(PartialEq, Eq, PartialOrd, Ord, Hash)]\npub struct X(pub u8, #[ord(key = crate::support::gk(&$))] pub u8, #[ord(key = ($.0))] pub (u8, u8), #[ord(reverse)] pub u8);\n#[forbid(unused_parens)]\n#[derive(derive_ex::Ex)]\n#[derive_ex(PartialEq, Eq, PartialOrd, Ord, Hash)]\npub enum E { A(u8, #[ord(key = $.1)] (u8, u8)), B { #[ord(by = crate::support::gby_ord)] #[hash(key = $)] x: u8 } }"),
     ("default_diverges", "#[derive_ex::derive_ex(Default, Clone)]\n#[default(todo!())]\npub struct X(pub u8);\n#[derive_ex::derive_ex(Default)]\n#[default(match 0u8 { _ => Y(1) }.pass())]\npub struct Y(pub u8);\nimpl Y { pub fn pass(self) -> Y { self } }"),
